@@ -5859,6 +5859,111 @@ class _ModFunc:
     def params(self):
         return []
 
+# ---------------------------------------------------------------------------
+# R14 an override of a mutating method of the mapping still performs the mutation
+# ---------------------------------------------------------------------------
+
+def _mutation_events(H: '_Hierarchy', d: '_MethodDef', memo: Dict[int, bool]) -> List[ast.AST]:
+    """Simple statements / calls of `d` that change the mapping: direct writes of self.data (R3's write sites), the item
+    protocol on self (`self[k] = v`, `del self[k]`), a call of another method of self that changes it, a call of the
+    shadowed definition that changes it."""
+    if d.selfname is None:
+        return []
+    sn = d.selfname
+    out: List[ast.AST] = [st for st, _why in H.write_sites(d)]
+    for n in walk_self(d.node):
+        tgts = []
+        if isinstance(n, (ast.Assign, ast.Delete)):
+            tgts = list(n.targets)
+        elif isinstance(n, (ast.AugAssign, ast.AnnAssign)) and getattr(n, 'value', None) is not None:
+            tgts = [n.target]
+        for t in tgts:
+            for x in (t.elts if isinstance(t, (ast.Tuple, ast.List)) else [t]):
+                if isinstance(x, ast.Subscript) and isinstance(x.value, ast.Name) and x.value.id == sn:
+                    out.append(n)
+        if isinstance(n, ast.AugAssign) and isinstance(n.target, ast.Name) and n.target.id == sn and isinstance(n.op, ast.BitOr):
+            t = H.lookup('__ior__')
+            if t is not None and _changes_mapping(H, t, memo):
+                out.append(n)
+        if isinstance(n, ast.Call) and isinstance(n.func, ast.Attribute):
+            f = n.func
+            if isinstance(f.value, ast.Name) and f.value.id == sn:
+                t = H.lookup(f.attr)
+                if t is not None and t.node is not d.node and _changes_mapping(H, t, memo):
+                    out.append(n)
+            else:
+                t = H.base_call_target(d, n)
+                if t is not None and _changes_mapping(H, t, memo):
+                    out.append(n)
+    return out
+
+
+def _changes_mapping(H: '_Hierarchy', d: '_MethodDef', memo: Dict[int, bool]) -> bool:
+    k = id(d.node)
+    if k not in memo:
+        memo[k] = False
+        memo[k] = bool(_mutation_events(H, d, memo))
+    return memo[k]
+
+
+# the mutating methods of the mapping protocol (collections.abc.MutableMapping: __setitem__, __delitem__, pop, popitem, clear, update,
+# setdefault; PEP 584: __ior__; the constructor fills the mapping).  Other shadowed methods that touch self.data on the way (UserDict.copy
+# parks and restores it) are not changes of the receiver.
+_PROTOCOL_MUTATORS = frozenset(MUTATORS) | {'__init__'}
+
+
+def r14_overrides_still_mutate(run):
+    """The mapping model of the property ("for every history of changes ... the handler the CURRENT mapping designates")
+    includes every mutating method of the mapping protocol.  Handlers overrides some of them to keep the resolver cache
+    coherent (R3); an override replaces the inherited behaviour, so it must itself perform the change: in every method
+    of the package that shadows a mutating method of the mapping protocol (cross-checked on the stdlib source by the
+    fixpoint: direct write of self.data, item protocol on self, call of a changing method, call of the shadowed one),
+    every normal path entry -> return passes such a change, unless a test on the way looks at one of the method's
+    arguments (nothing to merge, key already present, ...).
+    W: `handlers |= {MEDIA_JSON: custom}` with a body that lost its `self.update(other)`: the mapping and the resolver
+    keep the old handler; a new type answers 415."""
+    p = run.project
+    H = _Hierarchy(p, HANDLERS)
+    memo: Dict[int, bool] = {}
+    n_ob = 0
+    for d in H.effective():
+        if d.func is None or d.selfname is None:
+            continue
+        base = H.lookup(d.name, after=d.owner)
+        if base is None or d.name not in _PROTOCOL_MUTATORS:
+            continue
+        if not _changes_mapping(H, base, memo):
+            raise UnknownIdiom('%s: the shadowed %s is a mutator of the mapping protocol but no change of the mapping was found in it' % (d.qual, base.qual))
+        f = d.func
+        cfg = cfg_of(f, p)
+        run.use_cfg(cfg)
+        events = _mutation_events(H, d, memo)
+        ev_nodes: Set[int] = set()
+        for e in events:
+            for n in cfg.live_nodes():
+                if n.copy:
+                    continue
+                if n.ast is e or any(x is e for x in n.walk()):
+                    ev_nodes.add(n.id)
+        prms = {x for x in f.params() if x != d.selfname}
+        def looks_at_args(e) -> bool:
+            return e is not None and any(isinstance(x, ast.Name) and x.id in prms for x in ast.walk(e))
+        # a loop over (something built from) an argument: zero iterations when the argument is empty
+        arg_tests = {n.id for n in cfg.live_nodes()
+                     if (n.kind == 'test' and looks_at_args(n.ast))
+                     or (n.kind == 'iter' and isinstance(n.stmt, (ast.For, ast.AsyncFor)) and looks_at_args(n.stmt.iter))}
+        path = flow.find_path(cfg, [cfg.entry], [cfg.exit], avoid_nodes=ev_nodes | arg_tests, edge_filter=flow.no_exc)
+        n_ob += 1
+        run.check(path is None, '%s shadows %s, which changes the mapping: every normal path through the override that no test on its '
+                  'arguments leaves performs the change (%d changing construct(s) found: %s)'
+                  % (f.qual, base.qual, len(events), '; '.join(sorted({short(e, 50) for e in events})) or 'none'), f,
+                  '%s returns without changing the mapping' % d.name, where=f.loc(),
+                  witness=flow.describe_path(cfg, path) if path else None,
+                  runtime_witness='h = Handlers(); h.%s(...) (for __ior__: h |= {MEDIA_JSON: custom}) leaves the mapping as it was: '
+                                  'the old handler keeps being resolved, a new type answers 415' % d.name)
+    if n_ob == 0:
+        raise AnchorError('%s overrides no mutating method of its mapping bases' % HANDLERS)
+
 
 def check(run):
     run.assume('E5: str/bytes/re/dict.get methods and in-range subscripts are total; unresolved external callees do not raise unless tabled')
@@ -5882,3 +5987,4 @@ def check(run):
              'through _resolve(); a plain mapping read (.get / [...] / .items / .values / .data) outside falcon/media/handlers.py is a violation', floor=12)
     run.rule('R13', _safe(r13_all_parsed_params_match), '_MediaRange.parse() evaluated on every ordered subset of {a, q, b}: the range is built with the '
              "parsed parameters minus exactly 'q' - no position-dependent filtering", floor=1)
+    run.rule('R14', _safe(r14_overrides_still_mutate), 'a method of Handlers that shadows a mutating method of the mapping protocol still performs the change on every path no argument test leaves', floor=3)
